@@ -4,7 +4,7 @@ import ast
 from ..model import FuncInfo, canon
 from .. import astutil, guards
 from .common import site
-from . import c20
+from . import c20, c17
 
 
 def _norm_index(e):
@@ -283,10 +283,142 @@ def rule_update_formulas(repo, rep):
             'recognised as v^T A v' % wt)
 
 
+def rule_bounds(repo, rep):
+  R = 'R-FLOW:itml-bounds-as-given'
+  rep.rule(R, 'explicit bounds reach bounds_ through value-preserving '
+           'conversions only (check_array, ravel / reshape(-1) / flatten, '
+           'asarray, astype(float), copy): same two numbers in the same '
+           'order; default bounds are the 5th and 95th percentile of the '
+           'pairwise distances among the distinct points of the pairs')
+  f = repo.get_func('itml._BaseITML._fit')
+  rep.analysed(f)
+  br = [n for n in f.node.body if isinstance(n, ast.If) and
+        ast.unparse(n.test) in ('bounds is None', 'bounds is not None')]
+  if len(br) != 1:
+    rep.unknown(R, 'ITML._fit:bounds', site(f), 'bounds dispatch not found')
+    return
+  none_body, given_body = (br[0].body, br[0].orelse) \
+      if ast.unparse(br[0].test) == 'bounds is None' else \
+      (br[0].orelse, br[0].body)
+
+  def dn(e):
+    d = repo.dotted(f.module, e)
+    return canon(d) if d else None
+
+  KEEP_F = set(canon(x) for x in ('sklearn.utils.check_array', 'numpy.asarray',
+                                  'numpy.array', 'numpy.ravel',
+                                  'numpy.asanyarray', 'numpy.atleast_1d',
+                                  'numpy.squeeze'))
+  KEEP_M = {'ravel', 'flatten', 'copy', 'squeeze'}
+  ORDER = set(canon(x) for x in ('numpy.sort', 'numpy.flip', 'numpy.abs',
+                                 'numpy.maximum', 'numpy.minimum',
+                                 'numpy.clip', 'numpy.unique'))
+
+  def chain(e, env):
+    """'same' | ('changed', what) | ('unknown', what)"""
+    if isinstance(e, ast.Name):
+      if e.id in env:
+        return env[e.id]
+      return ('unknown', e.id)
+    if isinstance(e, ast.Call):
+      d = dn(e.func)
+      if d in KEEP_F and e.args:
+        return chain(e.args[0], env)
+      if d in ORDER or (isinstance(e.func, ast.Name) and
+                        e.func.id in ('sorted', 'reversed', 'abs')):
+        return ('changed', ast.unparse(e.func))
+      if isinstance(e.func, ast.Attribute) and d is None:
+        if e.func.attr in KEEP_M:
+          return chain(e.func.value, env)
+        if e.func.attr == 'reshape' and len(e.args) == 1 and \
+                ast.unparse(e.args[0]) in ('-1', '(-1,)', '2', '(2,)'):
+          return chain(e.func.value, env)
+        if e.func.attr == 'astype' and e.args and \
+                ast.unparse(e.args[0]) in ('float', 'np.float64',
+                                           'np.float_'):
+          return chain(e.func.value, env)
+        if e.func.attr in ('sort',):
+          return ('changed', '.sort()')
+      return ('unknown', ast.unparse(e.func))
+    if isinstance(e, ast.Subscript) and isinstance(e.slice, ast.Slice) and \
+            e.slice.step is not None and ast.unparse(e.slice.step) == '-1':
+      return ('changed', '[::-1]')
+    return ('unknown', type(e).__name__)
+
+  env = {'bounds': 'same'}
+  verdict = None
+  for s_ in given_body:
+    if isinstance(s_, ast.Assign) and len(s_.targets) == 1:
+      t = ast.unparse(s_.targets[0])
+      v = chain(s_.value, env)
+      if t == 'self.bounds_':
+        verdict = (s_, v)
+      elif isinstance(s_.targets[0], ast.Name):
+        env[t] = v
+    elif isinstance(s_, ast.Expr) and isinstance(s_.value, ast.Call) and \
+            isinstance(s_.value.func, ast.Attribute) and \
+            s_.value.func.attr == 'sort' and \
+            ast.unparse(s_.value.func.value) in env:
+      env[ast.unparse(s_.value.func.value)] = ('changed', '.sort()')
+  key = 'ITML._fit:explicit-bounds'
+  if verdict is None:
+    rep.unknown(R, key, site(f, br[0]), 'no store of bounds_ for explicit '
+                'bounds')
+  elif verdict[1] == 'same':
+    rep.derived(R, key, site(f, verdict[0]))
+  elif verdict[1][0] == 'changed':
+    rep.refuted(R, key, site(f, verdict[0]), 'the given bounds pass through '
+                '%s before they are stored: (upper, lower) given by the '
+                'caller are not used as given' % verdict[1][1])
+  else:
+    rep.unknown(R, key, site(f, verdict[0]), 'conversion %s not in the table '
+                'of value-preserving operations' % verdict[1][1])
+  # default bounds
+  key = 'ITML._fit:default-bounds'
+  st_ = [s_ for s_ in none_body if isinstance(s_, ast.Assign) and
+         ast.unparse(s_.targets[0]) == 'self.bounds_']
+  if len(st_) != 1 or not isinstance(st_[0].value, ast.Call) or \
+          dn(st_[0].value.func) != canon('numpy.percentile') or \
+          len(st_[0].value.args) != 2:
+    rep.unknown(R, key, site(f, br[0]), 'default bounds are not one '
+                'np.percentile call')
+    return
+  call = st_[0].value
+  q = call.args[1]
+  qs = [e.value for e in q.elts] if isinstance(q, (ast.Tuple, ast.List)) and \
+      all(isinstance(e, ast.Constant) for e in q.elts) else None
+  src = call.args[0]
+  ok_src = isinstance(src, ast.Call) and dn(src.func) == \
+      canon('sklearn.metrics.pairwise_distances') and len(src.args) == 1 \
+      and not src.keywords
+  xdef = None
+  if ok_src and isinstance(src.args[0], ast.Name):
+    xd = [s_ for s_ in none_body if isinstance(s_, ast.Assign) and
+          ast.unparse(s_.targets[0]) == src.args[0].id]
+    xdef = ast.unparse(xd[0].value) if xd else None
+  if qs is None or not ok_src or xdef is None:
+    rep.unknown(R, key, site(f, st_[0]), 'form %s' % ast.unparse(call))
+  elif list(qs) == [5, 95] and xdef in (
+          'np.unique(np.vstack(pairs), axis=0)',
+          'np.unique(pairs.reshape(-1, pairs.shape[2]), axis=0)',
+          'np.unique(np.concatenate(pairs), axis=0)'):
+    rep.derived(R, key, site(f, st_[0]))
+  elif list(qs) != [5, 95]:
+    rep.refuted(R, key, site(f, st_[0]), 'default bounds are the %s '
+                'percentiles, documented (5, 95)' % (qs,))
+  elif 'unique' not in xdef:
+    rep.refuted(R, key, site(f, st_[0]), 'percentiles taken over %s: points '
+                'shared by several pairs are counted several times '
+                '(documented: among all points present in the pairs)' % xdef)
+  else:
+    rep.unknown(R, key, site(f, st_[0]), 'points %s' % xdef)
+
+
 def check(repo, rep, tier):
   rule_dual_nonneg(repo, rep)
   rule_rank_one(repo, rep)
   rule_update_formulas(repo, rep)
+  rule_bounds(repo, rep)
   # strictly PD prior required at the call site (shared with C20)
   R = 'R-TABLE:strict-pd-call-sites'
   before = len(rep.obs)
@@ -295,5 +427,13 @@ def check(repo, rep, tier):
   c20.rule_prior_inputs(repo, rep)
   rep.obs[before:] = [o for o in rep.obs[before:]
                       if o['construct'].startswith('ITML')]
+  # the caller's prior / bounds are not written to: the program solved is
+  # the one for the prior the caller still holds (FRESH rule of C17)
+  before = len(rep.obs)
+  c17.rule_writes(repo, rep)
+  rep.obs[before:] = [o for o in rep.obs[before:]
+                      if o['construct'].startswith(('ITML.fit',
+                                                    'ITML_Supervised.fit'))]
+  rep.floors = [fl for fl in rep.floors if 'in-place' not in fl[0]]
 
 
